@@ -9,6 +9,8 @@ from vlib import build, tarmk, tarcases, sqfsck, packcheck, treegen
 
 SCR = None
 T = {}
+import multiprocessing as _mp
+HANGS = _mp.Value("i", 0)       # confirmed hangs so far (shared with the forked workers)
 FIELDS = [("name", 0, 100), ("mode", 100, 8), ("uid", 108, 8), ("gid", 116, 8), ("size", 124, 12), ("mtime", 136, 12), ("typeflag", 156, 1),
           ("linkname", 157, 100), ("magic", 257, 6), ("version", 263, 2), ("devmajor", 329, 8), ("devminor", 337, 8), ("prefix", 345, 155)]
 
@@ -325,13 +327,18 @@ def evaluate(case):
                 argv = [T["gensquashfs"], "-q", "-c", "gzip", "-b", "4096", "-F", os.path.join(wd, "pack.txt"), "-D", os.path.join(wd, "in"),
                         "-S", os.path.join(wd, "sort.txt"), "-A", os.path.join(wd, "xattr.txt"), img]
         r = run_tool(argv, stdin=stdin, timeout=30, cwd=cwd)
-        if r.timeout:
-            # hang rule: re-run alone with a much longer limit, after removing what the killed run left behind
+        if r.timeout and HANGS.value < 6:
+            # hang rule: re-run alone with a much longer limit, after removing what the killed run left behind.
+            # Once six hangs have been confirmed this way, further 30 s timeouts are reported without the long re-run
+            # (a tree that hangs on a whole family would otherwise cost 5 minutes per member).
             try:
                 os.unlink(img)
             except OSError:
                 pass
             r = run_tool(argv, stdin=stdin, timeout=300, cwd=cwd)
+            if r.timeout:
+                with HANGS.get_lock():
+                    HANGS.value += 1
 
         def viol(fp, msg):
             f = {"case.json": json.dumps(dict(kind=kind, what=what, argv=[os.path.basename(argv[0])] + [a.replace(wd, "<wd>") for a in argv[1:]]))}
@@ -344,7 +351,7 @@ def evaluate(case):
         tool = os.path.basename(argv[0])
         site = kind if kind not in ("tar", "tar-graph") else "tar"
         if r.timeout:
-            return viol("C07|hang|%s|%s" % (tool, "hard-link graph" if "graph" in kind else site), "does not terminate within 300 s")
+            return viol("C07|hang|%s|%s" % (tool, "hard-link graph" if "graph" in kind else site), "does not terminate within 300 s (30 s once six hangs were confirmed with the 300 s limit)")
         if r.crashed:
             return viol("C07|%s|%s" % (r.crash_fingerprint(), tool), r.err.decode("latin1")[-2500:])
         exists = os.path.exists(img)
